@@ -516,7 +516,7 @@ def mc_stage(pid, tier, seed, key):
             ok = ("is violated" not in out) and ("Error:" not in out) and states > 0 and rc != -9
         r = {"cfg": cfg, "spec": spec, "ok": ok, "simulated_behaviours": sim, "states": states, "transitions": trans, "wall": wall, "rc": rc,
              "expect": c.get("expect", "ok"), "tail": out[-1500:] if not ok else ""}
-        m = re.search(r"Invariant (\w+) is violated", out)
+        m = re.search(r"Invariant (\w+) is violated", out) or re.search(r"Temporal property (\w+) was violated", out)
         if m:
             r["violated"] = m.group(1)
         if rc == -9:
